@@ -844,6 +844,10 @@ for _c in (0, 1, 2, 3):
       functions=['SET_OF_encode_uper', 'SET_OF__encode_sorted', '_el_buf_cmp', 'uper_encode', 'asn_put_many_bits'], no_canary=True,
       defines=['VF_COUNT=%d' % _c, 'VF_CB_CAP=40', 'VF_PREFILL=1', 'VF_SIZECT=2'], bound='as SET_OF_encode_uper.grid.n%d, with the constraint SIZE(2): lists of %d elements' % (_c, _c), timeout=900)
 
+O(id='BIT_STRING_uper.size-grid', props=['C01', 'C02'], kind='native', harness='harness/grid_bs_uper.c', entry='main',
+  functions=['BIT_STRING_encode_uper', 'BIT_STRING_decode_uper', 'BIT_STRING__compactify', 'per_put_many_bits', 'per_get_many_bits'], no_canary=True,
+  bound='native grid under ASan/UBSan: BIT STRING (SIZE(n)) for every n = 1..420 x 13 positions of the last one-bit (zero padding of 0..n bits, incl. exact multiples of 128): bits written, round trip', timeout=600)
+
 for _o in OBLIGATIONS:
     if _o.get('enforce') and _o.get('kind') in ('enforce', 'width') and _o.get('tier') == 'quick' and 'C19' not in _o['props']:
         _o['props'] = _o['props'] + ['C19']
